@@ -342,7 +342,11 @@ def run(tier: str, seed: int) -> int:
                 continue
             R.violation(f"bounded check on real code: {f['clause']}: {f['detail'][:300]}", {"failure": f}, True)
     R.level = "other"
+    from . import engine_diff
+
+    diff_summary = engine_diff.report(R, engine_diff.methods_diff(), "evaluate / clone / traversals / rotate / term functions on concrete trees")
     R.coverage = {
+        "engine_differential": diff_summary,
         "explanation": "get_term_ex / make_term / factor: deductive; has_like_terms invariance, terms_are_like reflexive+symmetric, never-raise: bounded enumeration on the real code",
         "obligations": n_obl,
         "discharged": n_ok,
